@@ -10,7 +10,7 @@ From Coq Require Import ZArith List Bool Lia Permutation.
 From Arsenal Require Import Util Budget BudgetProofs VamDev VamBlockList VamDefrag Vam VamInvMeta VamInv VamInvUpd VamInvDev.
 From Arsenal Require Import VamInvStep VamInvStep2 VamInvThm VamProps VamAcct VamAcctStep VamAcctStep2 VamAcctThm.
 From Arsenal Require Import VamDefragInv VamDefragStep VamDefragPass VamDefragThm.
-From Arsenal Require Pass PassProofs Defrag DefragProofs SyncMem.
+From Arsenal Require Pass PassProofs Defrag DefragProofs SyncMem VamDefragBridge.
 Import ListNotations.
 Open Scope Z_scope.
 
@@ -281,6 +281,53 @@ Proof using.
   cbn [length]. lia.
 Qed.
 
+Lemma commit_attempt_AM w lr slot dst :
+  AMx w -> AMx (fst (commit_attempt c w lr slot dst)) /\ v_tab (fst (commit_attempt c w lr slot dst)) = v_tab w.
+Proof.
+  intros (A & D & F). unfold commit_attempt. destruct (get_block w lr dst) as [b|]; [|split; [split; auto|reflexivity]].
+  pose proof (sm_sub_sameA c Hc Hmax Hlarge (v_m w) (bk_mem b) (bk_sm b)) as Hsub.
+  destruct (sm_sub (v_m w) (bk_mem b) (bk_sm b)) as (m1 & s1). cbn [fst] in Hsub.
+  assert (Hmap : mach_sameA c m1 (fst (fst (if a_persist (get_alloc w (Z.of_nat slot)) then sm_map c m1 (bk_mem b) s1 else (m1, s1, OK tt))))).
+  { destruct (a_persist _); [apply (sm_map_sameA c Hc Hmax Hlarge)|apply (mach_sameA_refl c Hc Hmax Hlarge)]. }
+  destruct (if a_persist (get_alloc w (Z.of_nat slot)) then sm_map c m1 (bk_mem b) s1 else (m1, s1, OK tt)) as ((m2 & s2) & mr). cbn [fst] in *.
+  pose proof (mach_sameA_trans c Hc Hmax Hlarge _ _ _ Hsub Hmap) as Hm12.
+  set (v2 := put_block (set_m w m2) lr (mkBlock (bk_id b) (bk_mem b) s2 (bk_meta b))).
+  assert (Em2 : v_m v2 = m2) by (unfold v2; rewrite put_block_m; reflexivity).
+  assert (Et2 : v_tab v2 = v_tab w) by (unfold v2; rewrite put_block_tab; reflexivity).
+  split; [|exact Et2]. unfold AMx. rewrite Em2, (allocs_truth_tab c Hc Hmax Hlarge w v2 [] Et2).
+  split; [eapply (MB_same c Hc Hmax Hlarge); eauto|]. split; [apply (proj2 (proj2 Hm12)); exact D|exact F].
+Qed.
+
+Lemma replay_AM log : forall w lr,
+  AMx w -> zlen (v_tab w) + Z.of_nat (length (Defrag.log_moves log)) <= 4194304 -> Forall (fun mv => 0 < Defrag.m_size mv < 2 ^ 39) (Defrag.log_moves log) ->
+  let '(w', r) := replay_log c w lr log in
+  match r with OK _ => AMx w' | _ => True end.
+Proof.
+  induction log as [|[slot dst|mv] tl IH]; intros w lr HA Hlen Hsz; cbn [replay_log Defrag.log_moves] in *; [exact HA| |].
+  - destruct (commit_attempt_AM w lr slot dst HA) as (A1 & T1). destruct (commit_attempt c w lr slot dst) as (w1 & r). cbn [fst] in *.
+    destruct r as [[]|code| |]; try exact I; (apply IH; [exact A1|rewrite T1; exact Hlen|exact Hsz]).
+  - inversion Hsz as [|? ? Hs1 Hs2]; subst. cbn [length] in Hlen.
+    pose proof (commit_move_AM w lr mv HA ltac:(lia) Hs1) as P. destruct (commit_move c w lr mv) as (w1 & r).
+    destruct r as [[]|code| |]; auto. destruct P as (A1 & L1).
+    apply IH; [exact A1|lia|exact Hs2].
+Qed.
+
+Lemma replay_len log : forall w lr,
+  let '(w', r) := replay_log c w lr log in
+  match r with OK _ => zlen (v_tab w') = zlen (v_tab w) + Z.of_nat (length (Defrag.log_moves log)) | _ => True end.
+Proof using.
+  induction log as [|[slot dst|mv] tl IH]; intros w lr; cbn [replay_log Defrag.log_moves]; [cbn; lia| |].
+  - assert (T1 : v_tab (fst (commit_attempt c w lr slot dst)) = v_tab w).
+    { unfold commit_attempt. destruct (get_block w lr dst) as [b|]; [|reflexivity]. destruct (sm_sub _ _ _) as (m1 & s1).
+      destruct (if a_persist _ then _ else _) as ((m2 & s2) & mr). cbn [fst]. rewrite put_block_tab. reflexivity. }
+    destruct (commit_attempt c w lr slot dst) as (w1 & r). cbn [fst] in T1. specialize (IH w1 lr). rewrite T1 in IH.
+    destruct r as [[]|code| |]; try exact I; exact IH.
+  - pose proof (commit_moves_len [mv] w lr) as P. cbn [commit_moves] in P.
+    destruct (commit_move c w lr mv) as (w1 & r). destruct r as [[]|code| |]; auto. cbn [length] in P.
+    specialize (IH w1 lr). destruct (replay_log c w1 lr tl) as (w2 & r2). destruct r2 as [[]|code| |]; auto.
+    cbn [length]. lia.
+Qed.
+
 (* BlockListCollectMoves of one context *)
 Lemma collect_list_inv v dc p :
   VamInvA v [] [] -> Defrag.c_moves (dc_ctx dc) = [] -> PassProofs.pass_running p ->
@@ -303,10 +350,13 @@ Proof.
   { unfold project in Ep. rewrite Hg in Ep. destruct (project_blocks (bl_blocks l)) as [bl|]; [|discriminate]. injection Ep as <-. eauto. }
   destruct Est as (bl & Epb & Est).
   pose proof (project_wf c v (dc_lr dc) l st HS Hg (HG1 l eq_refl) Ep) as HW.
-  destruct (DefragProofs.collect_moves_inv st (dc_ctx dc) p HW Hrun) as (new & HC & _).
-  destruct (Defrag.collect_moves st (dc_ctx dc) p) as (cs & wr). cbn [fst] in HC.
-  pose proof (DefragProofs.ci_moves _ _ _ _ _ _ HC) as Hms. rewrite Hidle in Hms. cbn [app] in Hms.
-  rewrite Hidle in *. cbn [length skipn] in *. rewrite Hms in *.
+  destruct (VamDefragBridge.collect_moves_f_inv_g1 vam (att_commit c (dc_lr dc)) st (dc_ctx dc) p v HW Hrun) as (new & HC & _).
+  destruct (VamDefragBridge.collect_moves_f_log_g1 vam (att_commit c (dc_lr dc)) st (dc_ctx dc) p v) as (Hlg & _).
+  destruct (Defrag.collect_moves_f vam (att_commit c (dc_lr dc)) st (dc_ctx dc) p v) as (((cs & env) & log) & wr).
+  unfold Defrag.res_f, Defrag.log_f in *. cbn [fst snd] in HC, Hlg.
+  pose proof (DefragProofs.ci_moves _ _ _ _ _ _ HC) as Hms. rewrite Hidle in Hms, Hlg. cbn [app] in Hms, Hlg.
+  assert (Hnew : new = Defrag.log_moves log) by congruence.
+  rewrite Hms in *.
   (* sizes of the moves *)
   assert (Hsz : Forall (fun mv => 0 < Defrag.m_size mv < 2 ^ 39) new).
   { apply Forall_forall. intros m Hm. subst st.
@@ -318,12 +368,12 @@ Proof.
   { assert (Et : v_tab v1 = v_tab v) by apply set_blist_tab. assert (Em : v_m v1 = v_m v) by apply set_blist_m.
     unfold AMx. rewrite Em, (allocs_truth_tab c Hc Hmax Hlarge v v1 [] Et). split; [apply (ai_mb _ _ _ HA)|]. split; [apply (ai_res _ _ _ HA)|].
     apply (allocs_bound c Hc Hmax Hlarge v [] [] _ HS (ai_mb _ _ _ HA)). }
-  pose proof (commit_moves_len new v1 (dc_lr dc)) as PL.
+  pose proof (replay_len log v1 (dc_lr dc)) as PL. rewrite <- Hnew in PL.
   assert (PA : zlen (v_tab v1) + Z.of_nat (length new) <= 4194304 ->
-               let '(w', r) := commit_moves c v1 (dc_lr dc) new in match r with OK _ => AMx w' | _ => True end).
-  { intros Hb. apply commit_moves_AM; auto. }
+               let '(w', r) := replay_log c v1 (dc_lr dc) log in match r with OK _ => AMx w' | _ => True end).
+  { intros Hb. apply replay_AM; try rewrite <- Hnew; auto. }
   destruct wr as [| |why]; [| |exact I];
-    (destruct (commit_moves c v1 (dc_lr dc) new) as (v2 & r); destruct r as [[]|code| |]; auto;
+    (destruct (replay_log c v1 (dc_lr dc) log) as (v2 & r); destruct r as [[]|code| |]; auto;
      intros Hbound; destruct P as (I2 & L2 & G2 & Elr & M2 & R2);
      (split; [|auto 10]); split; [exact I2|];
      destruct (PA ltac:(lia)) as (A2 & D2 & _);
